@@ -332,6 +332,8 @@ def gen_case(item, rng, tier):
             reg0['R'][rng.choice(['R%dusr' % rng.randrange(8), 'SPusr', 'SPsvc', 'R%dusr' % rng.randrange(13)])] = BIG + size - rng.choice([1, 2, 3, 4, 5, 8, 9, 0x10, 0x40, 0x1000, 0x10000, 0x10004])
         if rng.random() < 0.5:
             reg0['sys']['sctlr'] &= ~1                 # MPU / MMU off: the accesses reach the device
+    if item['k'] == 'stream' and rng.random() < 0.06:
+        core['twin'] = rng.choice([20, 50, 100])
     return {'scenario': 'corrupt', 'kind': item['k'], 'cores': [core], 'events': events,
             'max_ticks': nt + 4, 'stop_at_done': False}
 
@@ -367,7 +369,15 @@ class HostMonitor:
 
 def run(case):
     env_prints = M.env.print_count[0]
-    b = StreamBoard(case, [HostMonitor(), RangeMonitor(report=False), ModeMonitor(case['cores'][0]['config'], report=False)])
+    try:
+        b = StreamBoard(case, [HostMonitor(), RangeMonitor(report=False), ModeMonitor(case['cores'][0]['config'], report=False)])
+    except Exception as e:
+        name, site = M.exc_site(e)
+        if site == '?' or isinstance(e, M.ConstructionMismatch):
+            raise                      # (not raised by the library: a harness error)
+        # the library failed with a host error while the processor was being constructed or its memory loaded through the devices' own interface
+        return {'violations': [{'oracle': 'host_error', 'site': site, 'cls': name, 'tick': 0, 'detail': '%r while the machine was being built and loaded' % (e,)}],
+                'cover': set(), 'stats': {'hosterr.%s@%s' % (name, site): 1}, 'ticks': 0, 'digest': 'construction', 'interesting': True}
     b.run()
     for what, name, site, detail in b.host_errors or []:
         b.violate('host_error', site, name, '%s during %s' % (detail, what))
